@@ -272,6 +272,33 @@ theorem accounted_un (op : Int → Int) (rs : RollRec) (hs : rs.wellOwned = true
   · exact accounted_via_operand [y] [sr] y (sumOperand sr) o (List.mem_singleton.mpr rfl) rfl
       (by rw [hys]; simp) hunowned hsrc hown
 
+/-- whatever the operand reaches once associated, the end of the chain built on it reaches too -/
+theorem reach_chainRO (ops : List (Int → Int)) (a o : RO) (h : o ∈ a.ownDeep.reach) :
+    o ∈ (chainRO ops a).ownDeep.reach := by
+  induction ops generalizing a with
+  | nil => simpa [chainRO] using h
+  | cons f fs ih =>
+    rw [chainRO]
+    apply ih
+    simp only [RO.ownDeep, Bool.false_eq_true, if_false, RO.ownDeepList, RO.reach, RO.reachList,
+      List.append_nil, List.mem_cons]
+    exact Or.inr h
+
+/-- a custom multi-step operator: the operand's outcomes are reachable from the end of the chain -/
+theorem accounted_unChain (ops : List (Int → Int)) (rs : RollRec) (hs : rs.wellOwned = true) :
+    Accounted (mkRollDeep [chainRO ops (sumOperand rs)] [rs]) := by
+  intro sr hsr o ho hv
+  have hsr0 : sr ∈ [rs] := hsr
+  have hsr' : sr = rs := by simpa using hsr0
+  subst hsr'
+  have hown : o.owned = true := owned_of_allOwned o (outcomes_allOwned_single sr hs o ho)
+  have hbase : o ∈ (sumOperand sr).ownDeep.reach := by
+    rcases operand_accounts sr hs o ho hv with heq | ⟨hsrc, _⟩
+    · rw [← heq, ownDeep_of_owned o hown]; exact RO.mem_reach_self o
+    · exact RO.mem_reach_of_source _ o (sources_ownDeep _ o hsrc hown)
+  have := reach_chainRO ops (sumOperand sr) o hbase
+  simpa [mkRollDeep, RollRec.outcomes, RO.ownDeepList] using this
+
 theorem accounted_sel (rs : List RollRec) (h : RollRec.wellOwnedList rs = true) (idxs : List Nat) :
     Accounted (mkRollDeep
       ((idxs.filterMap fun j => (sortRO (liveOutcomes rs))[j]?) ++
@@ -357,6 +384,10 @@ theorem rollW_accounted (t : RTree) (hns : ∀ p e rep md src, t ≠ .subst p e 
     rw [rollW]
     refine AllW_bind _ _ _ _ (rollW_wellOwned s) (fun rs hs => ?_)
     exact AllW_pure _ _ (accounted_un op rs hs)
+  | unChain ops s =>
+    rw [rollW]
+    refine AllW_bind _ _ _ _ (rollW_wellOwned s) (fun rs hs => ?_)
+    exact AllW_pure _ _ (accounted_unChain ops rs hs)
   | filt p srcs =>
     rw [rollW]
     exact AllW_bind _ _ _ _ (rollAllW_wellOwned srcs) (fun rs hrs => AllW_pure _ _ (accounted_filter p rs hrs))
